@@ -36,6 +36,7 @@ type FuncContract struct {
 	Ensures    []*Clause
 	Invariants map[int][]*Clause
 	AtCalls    []*Clause
+	AfterCalls []*Clause // assumptions about results of matching (external) calls: after call <pat> assume <expr>
 	Assigns    []string
 	HasAssigns bool
 	Pure       bool
@@ -88,7 +89,7 @@ type Contracts struct {
 
 func fkey(pkg, name string) string { return pkg + "::" + name }
 
-var kwRe = regexp.MustCompile(`^(func|spec|lemma|axiom|uf|requires|ensures|invariant|loop|assigns|pure|inline|trusted|maypanic|nosafe|abstract|fresh|at|props|finding|noeffect|assumes)\b`)
+var kwRe = regexp.MustCompile(`^(func|spec|lemma|axiom|uf|requires|ensures|invariant|loop|assigns|pure|inline|trusted|maypanic|nosafe|abstract|fresh|at|props|finding|noeffect|assumes|after)\b`)
 
 // loadContractFile parses one file. pkgPath is the import path of the package it annotates.
 func (cs *Contracts) loadContractFile(path, pkgPath string) error {
@@ -215,6 +216,21 @@ func (cs *Contracts) loadContractFile(path, pkgPath string) error {
 			}
 			c.Callee = parts[1]
 			cur.AtCalls = append(cur.AtCalls, c)
+		case "after":
+			// after call <callee-substring> assume expr
+			if cur == nil {
+				return fmt.Errorf("%s:%d: after outside func", path, rc.line)
+			}
+			parts := strings.SplitN(rest, " ", 4)
+			if len(parts) < 4 || parts[0] != "call" || parts[2] != "assume" {
+				return fmt.Errorf("%s:%d: expected 'after call <callee> assume expr'", path, rc.line)
+			}
+			c, err := mk("after", parts[3])
+			if err != nil {
+				return err
+			}
+			c.Callee = parts[1]
+			cur.AfterCalls = append(cur.AfterCalls, c)
 		case "finding":
 			// finding <id> <clause-label> region <expr> : attaches to a previously declared clause
 			parts := strings.SplitN(rest, " ", 4)
